@@ -53,7 +53,16 @@ def run(rep):
     for cn, cb in sorted(mir.bodies.items()):
         if cb.kind == 'Closure':
             continue
-        loops_globals = any(cname(t) == 'naga::Arena::<T>::iter' and op_place(t['args'][0]) and 'global_variables' in str(canon(cb, op_place(t['args'][0]))) for _, t in cb.calls())
+        def iterates_globals(b_):
+            return any(cname(t) == 'naga::Arena::<T>::iter' and op_place(t['args'][0]) and 'global_variables' in str(canon(b_, op_place(t['args'][0]))) for _, t in b_.calls())
+        loops_globals = iterates_globals(cb)
+        if not loops_globals and (mir.reachable_fns([cn]) & set(G0)):
+            # the iteration may be handed out by a small helper (`for (global, binding) in context.resources()`): a direct callee that builds the
+            # iterator over module.global_variables and does nothing else with the group data (it does not reach DuplicateBinding itself)
+            for _, t_ in cb.calls():
+                h_ = mir.bodies.get(cname(t_))
+                if h_ is not None and h_.kind != 'Closure' and iterates_globals(h_) and not (mir.reachable_fns([cname(t_)]) & set(G0)) and 'Iterator' in h_.locals[0] + ' impl':
+                    loops_globals = True
         if loops_globals and (mir.reachable_fns([cn]) & set(G0)):
             X.append(cn)
     if not X:
